@@ -1455,14 +1455,62 @@ class Unit:
         # a function from this list (tokio documents them as cancel safe); an `async {}` block is
         # expanded into its cancellation points (E3c); anything else is undecided.
         async_arms = {}
+        dropped = {}
         for i, a in enumerate(arms):
             ft = src.text(*a["fut"]).strip()
             if re.match(r"^async\b", ft):
                 async_arms[i] = self._async_arm(src, n, a, nodes)
                 continue
             m_ = re.match(r"^(?:[\w:]+::)?(\w+)\s*\(.*\)$", ft, re.S) or re.match(r"^[\w\.\s]+\.(\w+)\s*\(.*\)$", ft, re.S)
+            # E3d: a branch future that is ONE method call of a function the unit lists as NOT cancellation
+            # safe together with an env "drop model" (what may have happened when the future was polled and
+            # then dropped because another arm completed first)
+            md = re.match(r"^([\w\.\s]+)\.(\w+)\s*\((.*)\)$", ft, re.S)
+            if md and md.group(2) in getattr(self, "cancel_unsafe", {}) and ".await" not in ft:
+                dropped[i] = f"if nondet() {{ {self.cancel_unsafe[md.group(2)]}(&{md.group(1).strip()}, {md.group(3).strip().rstrip(',')}, Tracked(w)); }} "
+                continue
             if not m_ or m_.group(1) not in (self.CANCEL_SAFE | getattr(self, "cancel_safe_extra", set())) or ".await" in ft:
                 raise Undecided(f"E3: select! branch future `{ft[:60]}` is not a single call of a cancellation-safe function ({', '.join(sorted(self.CANCEL_SAFE))}): dropping it part-way is not modelled")
+        REFUT = re.compile(r"^(Some|Ok|Err)\s*\(")
+        refut = {i for i, a in enumerate(arms) if REFUT.match(src.text(*a["pat"]).strip())}
+        if refut:
+            # E3r: tokio's rule for a refutable pattern `PAT = fut`: when fut completes with a value that
+            # does not match, the branch is DISABLED and select! goes on with the remaining ones (all
+            # disabled and no `else`: it panics).  `{ let __sel = fut; if let PAT = __sel { body } else
+            # { <demonic choice over the remaining arms> } }`, written by an emitter that copies the
+            # arms' pattern / future / body texts with the edits that fall inside them.
+            if async_arms or any(a.get("guard") for a in arms):
+                raise Undecided("E3r: select! with a refutable pattern together with an async-block future or a branch guard")
+            whole = (n["span"][0], n["close"] + 1)
+
+            def emit(inner, arms=arms, dropped=dropped, refut=refut):
+                def rng(s_, e_):
+                    self._apply(src, s_, e_, [e for e in inner if s_ <= e[0] and e[1] <= e_])
+                def body(a):
+                    if a["body_is_block"]:
+                        rng(*a["body"])
+                    else:
+                        self.raw("{ "); rng(*a["body"]); self.raw(" }")
+                def gen(idx):
+                    if not idx:
+                        self.raw("{ crate::select_all_branches_disabled() }")
+                        return
+                    for k, i in enumerate(idx):
+                        a = arms[i]
+                        self.raw(("" if k == 0 else " else ") + ("if nondet() " if k < len(idx) - 1 else "") + "{ ")
+                        self.raw("".join(t for j, t in sorted(dropped.items()) if j != i and j in idx))
+                        if i in refut:
+                            self.raw(f"let __sel{i} = "); rng(*a["fut"]); self.raw("; if let "); rng(*a["pat"])
+                            self.raw(f" = __sel{i} "); body(a) if a["body_is_block"] else (self.raw("{ "), rng(*a["body"]), self.raw(" }"))
+                            self.raw(" else { "); gen([j for j in idx if j != i]); self.raw(" }")
+                        else:
+                            self.raw("let "); rng(*a["pat"]); self.raw(" = "); rng(*a["fut"]); self.raw("; "); body(a)
+                        self.raw(" }")
+                gen(list(range(len(arms))))
+            self._log("E3r", src, s0, "tokio::select!{…}", "refutable branch pattern: a completed branch whose value does not match is disabled and the remaining arms go on")
+            if dropped:
+                self._log("E3d", src, s0, "tokio::select!{…}", "a not-cancellation-safe branch future: the arms that win over it first run its env drop model (started, then dropped)")
+            return [(whole[0], whole[1], emit, None)]
         for i, a in enumerate(arms):
             last = i == len(arms) - 1 and not async_arms
             if i in async_arms:
@@ -1472,7 +1520,9 @@ class Unit:
                 cur = a["body"][1]
                 eds.append((cur, cur, " }", None))
                 continue
-            head = ("" if i == 0 else " else ") + ("" if last else "if nondet() ") + "{ let "
+            # E3d: when THIS arm wins, every not-cancellation-safe future of another arm was dropped
+            pre = "".join(t for k, t in sorted(dropped.items()) if k != i)
+            head = ("" if i == 0 else " else ") + ("" if last else "if nondet() ") + "{ " + pre + "let "
             if last and i == 0:
                 head = "{ let "
             eds.append((cur, a["pat"][0], head, None))
@@ -1482,10 +1532,12 @@ class Unit:
             else:
                 eds.append((a["fut"][1], a["body"][0], "; { ", None))
             cur = a["body"][1]
-            tail = " }" if a["body_is_block"] else "; } }"
+            tail = " }" if a["body_is_block"] else " } }"      # no `;`: a select! used as a value keeps the arm's value (arms of a statement-position select! are unit-typed anyway)
             eds.append((cur, cur, tail, None))
         # with cancellation branches every arm is conditional; the chain ends in a stutter step
         eds.append((cur, n["close"] + 1, " else { }" if async_arms else "", None))
+        if dropped:
+            self._log("E3d", src, s0, "tokio::select!{…}", "a not-cancellation-safe branch future: the arms that win over it first run its env drop model (started, then dropped)")
         self._log("E3", src, s0, "tokio::select!{…}", f"demonic if/else chain over {len(arms)} arms" + (" with cancellation points of async-block futures (E3c)" if async_arms else ""))
         return eds
 
